@@ -160,7 +160,9 @@ class Multisphere(ScatteringTheory):
             raise TheoryNotCompatibleError(self, scatterer)
         # check for spheres being uniform
         for sph in scatterer.scatterers:
-            if not np.isscalar(sph.n):
+            # (a 0-d array, e.g. one channel of a labelled array, is a scalar)
+            if not (np.isscalar(sph.n) or
+                    isinstance(sph.n, np.ndarray) and sph.n.ndim == 0):
                 raise TheoryNotCompatibleError(self, scatterer, "Multisphere" +
                                                " cannot compute scattering" +
                                                " from layered particles.")
